@@ -2,5 +2,5 @@ import Klong.Model.C14
 open Klong
 
 def main (_args : List String) : IO UInt32 := do
-  Wire.loop (← IO.getStdin) (← IO.getStdout) C14.handle C14.init
+  Wire.loop (← IO.getStdin) (← IO.getStdout) C14.handle (C14.init .fixed [] [])
   return 0
